@@ -190,6 +190,12 @@ func containers(root *json.Object) []jsonContainer {
 	return out
 }
 
+// noArraySet: the docupd stream runs GC; ArraySet anchors on the target element's ORIGINAL position
+// node, which for a moved element is a dead slot that GC purges, so with GC the new value lands next to
+// the element's current position and without GC at the old one (C03/C07 finding, see known_findings.json);
+// the stream that checks C08 stays out of that region.
+var noArraySet = false
+
 var crdtKeys = []string{"a", "b", "c", "k1", "zz"}
 
 // randomEdit performs one API call on a random live container; returns a description.
@@ -288,6 +294,10 @@ func randomEdit(r *rand.Rand, root *json.Object, c *Ctx) string {
 			t.arr.MoveLast(t.arr.Get(r.Intn(n)).CreatedAt())
 			return "arr.moveLast"
 		default:
+			if noArraySet {
+				t.arr.AddInteger(r.Intn(1000))
+				return "arr.addInteger"
+			}
 			t.arr.SetInteger(r.Intn(n), r.Intn(1000))
 			return "arr.setInteger"
 		}
